@@ -30,7 +30,7 @@ Record vec_entry := mk_ve {
 Record vec_buffer := mk_vb { vb_vecs : list vec_entry; vb_change_list : list nat }.
 
 (* STD_LOGIC_LUT: position in the VHDL enum -> wellen's nine state code *)
-Definition std_logic_lut : list N := [5; 2; 0; 1; 3; 6; 7; 4; 8].
+Definition std_logic_lut : list N := ghw_std_logic_lut.      (* Generated/Consts.v, from ghw/common.rs *)
 
 (* VecBuffer::from_vec_info: vectors as (min id, max id, two_state, signal ref) *)
 Definition vec_of (v : nat * nat * bool * nat) : outcome vec_entry :=
@@ -192,11 +192,11 @@ Definition read_int (big_endian : bool) (bs : list byte) : N :=
     (if big_endian then bs else rev bs) 0.
 
 Definition mark_eq (a b : list byte) : bool := list_eqb a b.
-Definition mk4 (a b c : N) : list byte := [a; b; c; 0].
-Definition SNP := mk4 83 78 80. Definition ESN := mk4 69 83 78.
-Definition CYC := mk4 67 89 67. Definition ECY := mk4 69 67 89.
-Definition DIR := mk4 68 73 82. Definition EOD := mk4 69 79 68.
-Definition TAI := mk4 84 65 73.
+(* section markers: Generated/Consts.v, from ghw/common.rs *)
+Definition SNP := ghw_snapshot_section. Definition ESN := ghw_end_snapshot_section.
+Definition CYC := ghw_cycle_section. Definition ECY := ghw_end_cycle_section.
+Definition DIR := ghw_directory_section. Definition EOD := ghw_end_directory_section.
+Definition TAI := ghw_tailer_section.
 
 (* read_cycle_signals: fuel = input length.  `pos` is the usize position counter (an N here: a
    delta can be any u64, so it must never become a unary nat before it is known to be an index):
